@@ -41,6 +41,8 @@ ROOTS = [
     ("p2-elevated-line-2d", ([Fr(0)] * 3 + [Fr(1)] * 3, [(Fr(0), Fr(0)), (Fr(1), Fr(1, 2)), (Fr(2), Fr(1))], None), None),
     ("alias-same-knotvector", ([Fr(-1), Fr(-1), Fr(1, 3), Fr(2), Fr(2)], [Fr(2), Fr(-3), Fr(5)], None), "shared"),
     ("alias-copy", ([Fr(-1)] * 3 + [Fr(2)] * 3, [Fr(2), Fr(-3), Fr(5)], [Fr(1), Fr(2), Fr(1)]), "copy"),
+    # two curves built from the same KnotVector object AND the same numpy array of points and list of weights
+    ("alias-same-data", ([0.0, 0.0, 0.0, 1.0, 1.0, 1.0], [(1.0, 2.0), (3.0, 4.0), (5.0, 7.0)], [1.0, 2.0, 3.0]), "shared_data"),
 ]
 
 
@@ -89,6 +91,9 @@ def build(state):
         c = lib.Curve(kv, pts_arg(P), None if W is None else list(W))
         d = lib.Curve(kv, pts_arg(partner[1]), None if partner[2] is None else list(partner[2]))
         return c, d
+    if partner is not None and mode == "shared_data" and partner == (U, P, W):
+        kv, arr, wl = lib.KnotVector(list(U)), pts_arg(P), None if W is None else list(W)
+        return lib.Curve(kv, arr, wl), lib.Curve(kv, arr, wl)
     c = lib.Curve(list(U), pts_arg(P), None if W is None else list(W))
     d = None
     if partner is not None:
@@ -363,6 +368,11 @@ def expand(res, only=None):
                 if returned and name not in ("copy", "deepcopy"):
                     for r in returned[:2]:
                         try:
+                            # first of all in place on the result's own KnotVector object (later steps rebind it)
+                            r.knotvector.shift(1)
+                        except Exception:  # noqa: BLE001
+                            pass
+                        try:
                             r.weights = [2 + (i % 3) for i in range(r.npts)]
                             kk = r.knotvector.knots
                             r.knot_insert([kk[0] + (kk[1] - kk[0]) / 2])
@@ -409,6 +419,8 @@ def root_state(i):
     if mode == "shared":
         Q = [x * 2 + 1 for x in P]
         return (main, (freeze(tuple(U)), freeze(Q), None), "shared")
+    if mode == "shared_data":
+        return (main, main, "shared_data")
     return (main, main, "copy")
 
 
